@@ -13,10 +13,19 @@ that holds the command objects of `ascmhl.commands` directly, or, for group-leve
 command, unknown command) the same entry point with `ascmhl.cli.update` replaced by an inert stand-in - gives the
 reference exit code, reference standard output and reference wall time, on an identical copy of the world.
     exit code  == reference exit code
-    stdout     == reference stdout, optionally followed by exactly ONE line that is an update notice
-    wall time  <= reference wall time + LIMIT   (LIMIT = 2.5 s: the "about one second" of the statement plus tolerance)
-Timing discrepancies are re-measured sequentially (nothing else of this driver running) and only reported when they
-reproduce; a real stall is deterministic.  Standard error is not part of the statement and is ignored.
+    stdout     == reference stdout, optionally followed by exactly ONE line that is an update notice (a line that speaks
+                  of an update / newer version and not of an error; and only if the server delivered anything that could
+                  be read as a version at all - with no version information there is nothing to give notice of)
+    time       (a) the process reaches its exit handlers at most LIMIT = 2.5 s (the "about one second" of the statement
+                  plus tolerance) later after the command's own code has finished than in the reference run (both instants
+                  are recorded inside the subprocess by the bootstrap, which is instrumentation only), and
+               (b) total wall time <= reference wall time + 1 s + 1.5 s * slowdown, slowdown = wall/CPU time of the reference
+                  run (1 on an idle machine, so the bound is 2.5 s there; the commands never sleep), and
+               (c) the process ends at all (it is killed after 1.5 * reference + bound (b) + 3 s).
+Timing discrepancies are measured twice more, sequentially (nothing else of this driver running) and only reported when all
+three measurements show them; a real stall is deterministic.  Standard error is not part of the statement and is ignored.
+Reference and updater runs import the same third-party modules at start-up (requests, packaging), so import cost does not
+count as delay.
 """
 import concurrent.futures
 import gzip
@@ -819,10 +828,11 @@ def main():
         rule="case = (command line on a world, entry style [python -m / console-script call], network behaviour of the update server); "
         "non-trivial = distinct triple in which the update check really contacted the simulated network; each case is compared with "
         "the same command line run without any updater on an identical copy of the world: exit code equal, stdout equal up to one "
-        "trailing update-notice line, wall time at most 2.5 s longer (timing re-measured sequentially before it is reported)",
-        bound="51 command lines (create/diff/info/flatten/verify/hash/xsd-schema-check + group --help/--version/no command/unknown command; "
+        "trailing update-notice line, termination after the command's own code has finished at most 2.5 s later, total wall time at most "
+        "1 s + 1.5 s * machine slowdown longer (timing re-measured twice sequentially before it is reported)",
+        bound="50 command lines (create/diff/info/flatten/verify/hash/xsd-schema-check + group --help/--version/no command/unknown command; "
         "exit codes 0,1,2,10,11,21,30; 11 worlds incl. nested x3, 13 generations, failed generation, NFC/NFD/U+2028 names, ~85-170 MiB tree "
-        "for a slow command, relative/'.'/trailing-slash roots, TZ with DST) x ~170 network behaviours (19 valid versions, 15 malformed, "
+        "for a slow command, relative/'.'/trailing-slash roots, TZ with DST) x 168 (quick) / 220 (thorough) network behaviours (19 valid versions, 15 malformed, "
         "13 non-string, missing key, non-object JSON, 21 non-JSON/truncated bodies, 18 HTTP statuses/redirects, 14 protocol faults, refused / "
         "mute / hanging / trickling / endless connections, DNS failure or hang, 14 requests exceptions, answers delayed 0.2-6 s (quick) or "
         "0.1-10 s in 0.1 s steps (thorough)); quick = every command x 4 behaviours + every behaviour x 1 command, thorough = x24 / x6",
@@ -833,7 +843,7 @@ def main():
     if not jobs:
         run.finish()
     h = Harness(run)
-    workers = 10 if run.tier != "thorough" else 12
+    workers = 14
     try:
         with concurrent.futures.ThreadPoolExecutor(workers) as pool:
             # reference runs, twice each (the second one shows whether the command's own output is reproducible at all)
